@@ -300,19 +300,21 @@ def resolveJ (negYear : Bool) (t : Time.TsToken) : Outcome Int :=
 /-- `Timestamp::from_str` on the spellings `[±00]YYYY-MM-DDTHH:MM:SS[.d{1,9}](Z|±HH:MM)` (also without time or
     zone, which are errors); everything else is outside the model -/
 def parseTsJson (cs : List Char) : Outcome Int :=
-  match cs with
-  | '-' :: '0' :: '0' :: rest =>
+  match Regex.stripPrefix ['-', '0', '0'] cs with
+  | some rest =>
     (match Time.lexTs rest with
      | some t => resolveJ true t
      | none => .undef)
-  | '+' :: '0' :: '0' :: rest =>
-    (match Time.lexTs rest with
-     | some t => resolveJ false t
-     | none => .undef)
-  | _ =>
-    (match Time.lexTs cs with
-     | some t => resolveJ false t
-     | none => .undef)
+  | none =>
+    match Regex.stripPrefix ['+', '0', '0'] cs with
+    | some rest =>
+      (match Time.lexTs rest with
+       | some t => resolveJ false t
+       | none => .undef)
+    | none =>
+      (match Time.lexTs cs with
+       | some t => resolveJ false t
+       | none => .undef)
 
 /-- `begin: Timestamp` / `end: Timestamp` -/
 def tsField : JVal → Outcome Int
@@ -327,30 +329,59 @@ def hexLower (c : Char) : Option Char :=
   else if 'A' ≤ c ∧ c ≤ 'F' then some (Char.ofNat (c.toNat + 32))
   else none
 
-def hexRun : List Char → Option (List Char)
-  | [] => some []
-  | c :: cs =>
-    match hexLower c, hexRun cs with
-    | some x, some xs => some (x :: xs)
-    | _, _ => none
+/-- exactly `n` hexadecimal digits (lower-cased) and the rest of the input -/
+def hexN : Nat → List Char → Option (List Char × List Char)
+  | 0, cs => some ([], cs)
+  | n + 1, c :: cs =>
+    (match hexLower c, hexN n cs with
+     | some x, some (xs, rest) => some (x :: xs, rest)
+     | _, _ => none)
+  | _ + 1, [] => none
 
-/-- `parse_hyphenated`: 8-4-4-4-12 hexadecimal digits → canonical text -/
+/-- a hyphen and the rest of the input -/
+def dash : List Char → Option (List Char)
+  | c :: cs => if c = '-' then some cs else none
+  | [] => none
+
+/-- `parse_hyphenated`: 8-4-4-4-12 hexadecimal digits and nothing else → canonical text -/
 def uuidHyph (cs : List Char) : Option (List Char) :=
-  if cs.length = 36 ∧ cs[8]? = some '-' ∧ cs[13]? = some '-' ∧ cs[18]? = some '-' ∧ cs[23]? = some '-' then
-    match hexRun (cs.take 8), hexRun ((cs.drop 9).take 4), hexRun ((cs.drop 14).take 4), hexRun ((cs.drop 19).take 4),
-          hexRun ((cs.drop 24).take 12) with
-    | some a, some b, some c, some d, some e => some (a ++ ['-'] ++ b ++ ['-'] ++ c ++ ['-'] ++ d ++ ['-'] ++ e)
-    | _, _, _, _, _ => none
-  else none
-
-/-- `parse_simple`: 32 hexadecimal digits -/
-def uuidSimple (cs : List Char) : Option (List Char) :=
-  if cs.length = 32 then
-    match hexRun cs with
-    | some x => some (x.take 8 ++ ['-'] ++ (x.drop 8).take 4 ++ ['-'] ++ (x.drop 12).take 4 ++ ['-']
-        ++ (x.drop 16).take 4 ++ ['-'] ++ x.drop 20)
+  match hexN 8 cs with
+  | none => none
+  | some (a, r1) =>
+    match dash r1 with
     | none => none
-  else none
+    | some r2 =>
+      match hexN 4 r2 with
+      | none => none
+      | some (b, r3) =>
+        match dash r3 with
+        | none => none
+        | some r4 =>
+          match hexN 4 r4 with
+          | none => none
+          | some (c, r5) =>
+            match dash r5 with
+            | none => none
+            | some r6 =>
+              match hexN 4 r6 with
+              | none => none
+              | some (d, r7) =>
+                match dash r7 with
+                | none => none
+                | some r8 =>
+                  match hexN 12 r8 with
+                  | none => none
+                  | some (e, r9) =>
+                    if r9.isEmpty then some (a ++ '-' :: (b ++ '-' :: (c ++ '-' :: (d ++ '-' :: e)))) else none
+
+/-- `parse_simple`: 32 hexadecimal digits and nothing else -/
+def uuidSimple (cs : List Char) : Option (List Char) :=
+  match hexN 32 cs with
+  | none => none
+  | some (x, r) =>
+    if r.isEmpty then
+      some (x.take 8 ++ '-' :: ((x.drop 8).take 4 ++ '-' :: ((x.drop 12).take 4 ++ '-' :: ((x.drop 16).take 4 ++ '-' :: x.drop 20))))
+    else none
 
 def urnPrefix : List Char := ['u', 'r', 'n', ':', 'u', 'u', 'i', 'd', ':']
 
@@ -363,7 +394,9 @@ def uuidParse (cs : List Char) : Option (List Char) :=
     else if cs.length = 38 then
       (if cs.head? = some '{' ∧ cs.getLast? = some '}' then uuidHyph (cs.drop 1).dropLast else none)
     else if cs.length = 45 then
-      (if urnPrefix.isPrefixOf cs then uuidHyph (cs.drop 9) else none)
+      (match Regex.stripPrefix urnPrefix cs with
+       | some r => uuidHyph r
+       | none => none)
     else none
   else none
 
